@@ -77,7 +77,8 @@ pub fn run(ctx: &Ctx) -> Outcome {
         let mut rep = Report::new(format!("{}/{}", cfg.name, w.label()));
         let label = w.label();
         let data = pattern(seed, 0xC17, (par_of(cfg) + 2) * cfg.bs + 8);
-        let hs = histories(w.n_ops(), tier.pick(2, 3));
+        // the extended alphabet: every call form of the kind (single / multi / exact multiples of the width / write_* / caller closures)
+        let hs = histories(w.n_ops_ext(), tier.pick(3, 4));
         let mut texts: BTreeSet<String> = BTreeSet::new();
         let mut stripped: BTreeSet<String> = BTreeSet::new();
         let mut first: Option<(String, String)> = None;
